@@ -298,7 +298,7 @@ func (s *AnalyzerState) IncrementAndTestAlarms() bool {
 
 // TestAlarmCount tests whether the alarm count is smaller than the maximum number of alarms allowed by the configuration.
 func (s *AnalyzerState) TestAlarmCount() bool {
-	return s.Config.MaxAlarms <= 0 || s.numAlarms.Load() < int32(s.Config.MaxAlarms)
+	return s.Config.MaxAlarms <= 0 || int(s.numAlarms.Load()) < s.Config.MaxAlarms
 }
 
 // PopulateTypesToImplementationMap populates the implementationsByType maps from type strings to implementations
